@@ -474,16 +474,42 @@ func hashKeyAgreement(c *Ctx) {
 		if d == nil {
 			return
 		}
-		for _, cs := range callsIn(d.pkg, d.fd.Body) {
-			if cs.callee.FullName() != "fmt.Sprintf" || len(cs.call.Args) != 3 {
-				continue
+		defs := singleDefs(d.pkg, d.fd.Body)
+		// every expression that keys a map[string][]*Node (the hash index), however it is spelled:
+		// Sprintf, concatenation, strconv — reduced to its shape, e.g. <int>:<str>
+		ast.Inspect(d.fd.Body, func(n ast.Node) bool {
+			ix, ok := n.(*ast.IndexExpr)
+			if !ok {
+				return true
 			}
-			if v, ok := constOf(d.pkg, cs.call.Args[0]); ok && v.isStr() {
-				t1 := d.pkg.TypesInfo.TypeOf(cs.call.Args[1])
-				t2 := d.pkg.TypesInfo.TypeOf(cs.call.Args[2])
-				formats[fname] = append(formats[fname], fmt.Sprintf("%s|%s|%s", v.str(), t1, t2))
+			mt := d.pkg.TypesInfo.TypeOf(ix.X)
+			if mt == nil {
+				return true
 			}
-		}
+			m, isMap := mt.Underlying().(*types.Map)
+			if !isMap {
+				return true
+			}
+			sl, isSl := m.Elem().Underlying().(*types.Slice)
+			if !isSl || !isNodePtr(sl.Elem()) {
+				return true
+			}
+			if b, isB := m.Key().Underlying().(*types.Basic); !isB || b.Kind() != types.String {
+				return true
+			}
+			// in the matcher only the map produced by the hash indexer counts (the purl index has
+			// the same type)
+			if !strings.HasSuffix(fname, ".indexNodesByHash") {
+				def, hasDef := defs[baseObj(d, ix.X)]
+				ce, isCall := def.(*ast.CallExpr)
+				if !hasDef || !isCall || calleeBase(d, ce, "") != "indexNodesByHash" {
+					return true
+				}
+			}
+			c.CallSites++
+			formats[fname] = append(formats[fname], keyShape(d, defs, ix.Index, 0))
+			return true
+		})
 	}
 	a, b := formats["sbom.(*NodeList).indexNodesByHash"], formats["sbom.(*NodeList).GetMatchingNode"]
 	if len(a) == 0 || len(b) == 0 {
@@ -604,4 +630,96 @@ func underLenOne(d *declInfo, chain []ast.Node, coll string) bool {
 		}
 	}
 	return false
+}
+
+// keyShape reduces a string-building expression to literals and operand classes:
+// fmt.Sprintf("%d:%s", a, b), strconv.Itoa(a)+":"+b and strconv.FormatInt(int64(a),10)+":"+b all
+// become `<int>:<str>`.
+func keyShape(d *declInfo, defs map[types.Object]ast.Expr, e ast.Expr, depth int) string {
+	if depth > 6 {
+		return "<?>"
+	}
+	e = chase(d.pkg, defs, e)
+	if v, ok := constOf(d.pkg, e); ok && v.isStr() {
+		return v.str()
+	}
+	classOf := func(x ast.Expr) string {
+		t := d.pkg.TypesInfo.TypeOf(x)
+		if t == nil {
+			return "<?>"
+		}
+		if b, ok := t.Underlying().(*types.Basic); ok {
+			switch {
+			case b.Info()&types.IsInteger != 0:
+				return "<int>"
+			case b.Info()&types.IsString != 0:
+				return "<str>"
+			}
+		}
+		return "<?>"
+	}
+	switch x := e.(type) {
+	case *ast.ParenExpr:
+		return keyShape(d, defs, x.X, depth+1)
+	case *ast.BinaryExpr:
+		if x.Op == token.ADD {
+			return keyShape(d, defs, x.X, depth+1) + keyShape(d, defs, x.Y, depth+1)
+		}
+	case *ast.CallExpr:
+		if tv, ok := d.pkg.TypesInfo.Types[x.Fun]; ok && tv.IsType() && len(x.Args) == 1 {
+			// string(x) of a string, or a numeric conversion
+			return classOf(x)
+		}
+		f, _ := typeutil.Callee(d.pkg.TypesInfo, x).(*types.Func)
+		if f == nil {
+			return "<?>"
+		}
+		switch f.FullName() {
+		case "strconv.Itoa", "strconv.FormatInt", "strconv.FormatUint":
+			return "<int>"
+		case "fmt.Sprint":
+			out := ""
+			for _, a := range x.Args {
+				out += classOf(a)
+			}
+			return out
+		case "fmt.Sprintf":
+			if len(x.Args) == 0 {
+				return "<?>"
+			}
+			fv, ok := constOf(d.pkg, x.Args[0])
+			if !ok || !fv.isStr() {
+				return "<?>"
+			}
+			out, arg := "", 1
+			f := fv.str()
+			for i := 0; i < len(f); i++ {
+				if f[i] != '%' || i+1 >= len(f) {
+					out += string(f[i])
+					continue
+				}
+				i++
+				switch f[i] {
+				case '%':
+					out += "%"
+				case 'd', 's', 'v':
+					if arg < len(x.Args) {
+						cl := classOf(x.Args[arg])
+						if (f[i] == 'd' && cl != "<int>") || (f[i] == 's' && cl != "<str>") {
+							cl = "<?>"
+						}
+						out += cl
+					} else {
+						out += "<?>"
+					}
+					arg++
+				default:
+					out += "<?>"
+				}
+			}
+			return out
+		}
+		return "<?>"
+	}
+	return classOf(e)
 }
